@@ -70,6 +70,12 @@ func TestVerifC01Agreement(t *testing.T) {
 			t.Fatalf("%v\nparams: %v\ntrace:\n  %s", err, p,
 				strings.Join(s.Trace, "\n  "))
 		}
+		// terminal negative control: a commitment_signed with one wrong
+		// htlc signature must be refused (nothing follows it)
+		if _, err := s.TamperedSigEpilogue(); err != nil {
+			t.Fatalf("%v\nparams: %v\ntrace:\n  %s", err, p,
+				strings.Join(s.Trace, "\n  "))
+		}
 		nontrivial := sigWithHtlc && s.Labels["both_queues_nonempty"]
 		st.Case(vstats.FP(p.String(), strings.Join(s.Trace, "|")),
 			nontrivial, simLabels(s), simSample(s))
